@@ -3,6 +3,8 @@ module verif/harness
 go 1.23.0
 
 require (
+	github.com/pkg/errors v0.9.1
+	google.golang.org/protobuf v1.36.6
 	perun.network/go-perun v0.0.0
 	polycry.pt/poly-go v0.0.0-20220301085937-fb9d71b45a37
 )
@@ -11,7 +13,6 @@ require (
 	github.com/davecgh/go-spew v1.1.1 // indirect
 	github.com/golang/snappy v0.0.4 // indirect
 	github.com/google/uuid v1.6.0 // indirect
-	github.com/pkg/errors v0.9.1 // indirect
 	github.com/pmezard/go-difflib v1.0.0 // indirect
 	github.com/sirupsen/logrus v1.9.3 // indirect
 	github.com/stretchr/testify v1.10.0 // indirect
